@@ -238,6 +238,10 @@ pub struct CmdSpec {
     pub fds: Vec<(RawFd, RawFd)>,
     pub stdout: PathBuf,
     pub stderr: PathBuf,
+    /// `cmd 2>&1 | head`: stdout and stderr are one pipe whose reader copies
+    /// it to the stderr file until the run reaches this scheduling step and
+    /// then goes away (later writes meet EPIPE / SIGPIPE)
+    pub reader_gone_at: Option<u64>,
 }
 
 pub struct FaultPlan {
@@ -292,6 +296,8 @@ pub struct Sim {
     /// number of ready select/poll wake-ups of redo processes chosen so far
     pub wake_count: u64,
     pub stall_fired: Option<String>,
+    /// output pipes played by the simulator: (read end, file the bytes go to, step at which the reader goes away)
+    out_pipes: Vec<(RawFd, PathBuf, u64)>,
     pct_change_points: Vec<u64>,
     pub wake_sets: BTreeMap<String, u64>,
     pub record_events: bool,
@@ -387,6 +393,7 @@ impl Sim {
             kill_cmd_at: None,
             wake_count: 0,
             stall_fired: None,
+            out_pipes: Vec::new(),
             pct_change_points: pts,
             wake_sets: BTreeMap::new(),
             record_events: true,
@@ -450,6 +457,16 @@ impl Sim {
         // resolve argv[0] through PATH in env
         let exe = resolve_exe(&spec.argv[0], &env);
         let exe_c = cstr(exe.to_str().unwrap());
+        let mut out_pipe: Option<(RawFd, RawFd)> = None;
+        if spec.reader_gone_at.is_some() {
+            let mut fds = [0i32; 2];
+            unsafe {
+                libc::pipe2(fds.as_mut_ptr(), libc::O_CLOEXEC);
+                let fl = libc::fcntl(fds[0], libc::F_GETFL);
+                libc::fcntl(fds[0], libc::F_SETFL, fl | libc::O_NONBLOCK);
+            }
+            out_pipe = Some((fds[0], fds[1]));
+        }
         let pid = unsafe { libc::fork() };
         if pid < 0 {
             return Err(SimError::Harness("fork failed".into()));
@@ -477,6 +494,10 @@ impl Sim {
                     0o644,
                 );
                 libc::dup2(e, 2);
+                if let Some((_, w)) = out_pipe {
+                    libc::dup2(w, 1);
+                    libc::dup2(w, 2);
+                }
                 for (src, dst) in &spec.fds {
                     libc::dup2(*src, *dst);
                 }
@@ -492,6 +513,10 @@ impl Sim {
         }
         unsafe {
             libc::setpgid(pid, pid);
+        }
+        if let (Some((r, w)), Some(at)) = (out_pipe, spec.reader_gone_at) {
+            unsafe { libc::close(w) };
+            self.out_pipes.push((r, spec.stderr.clone(), at));
         }
         self.pending_top.insert(pid, (idx, lid));
         self.expected.insert(pid);
@@ -1209,6 +1234,36 @@ impl Sim {
         self.finish_death(i)
     }
 
+    /// The readers of the commands' output pipes: copy what has arrived, go
+    /// away when their time has come.
+    fn play_readers(&mut self) {
+        use std::io::Write;
+        let step = self.step;
+        let mut gone = Vec::new();
+        for (k, (fd, file, at)) in self.out_pipes.iter().enumerate() {
+            let mut buf = [0u8; 65536];
+            loop {
+                let n = unsafe { libc::read(*fd, buf.as_mut_ptr() as *mut _, buf.len()) };
+                if n <= 0 {
+                    break;
+                }
+                if let Ok(mut f) = std::fs::OpenOptions::new().append(true).create(true).open(file) {
+                    let _ = f.write_all(&buf[..n as usize]);
+                }
+            }
+            if step >= *at {
+                gone.push(k);
+            }
+        }
+        for k in gone.into_iter().rev() {
+            let (fd, _, at) = self.out_pipes.remove(k);
+            unsafe { libc::close(fd) };
+            *self.fault_counts.entry("output-reader-gone".into()).or_insert(0) += 1;
+            self.log("-", EvKind::Fault, format!("output-reader-gone at step {}", at));
+            self.invalidate_ready();
+        }
+    }
+
     /// SIGKILL to the process group of the top-level command that process `i`
     /// belongs to.  Processes of the command that have left the group live on.
     pub fn kill_group_of(&mut self, i: usize) -> Result<(), SimError> {
@@ -1292,6 +1347,9 @@ impl Sim {
         }
         if self.step >= self.knobs.max_steps {
             return Ok(StepOutcome::StepLimit);
+        }
+        if !self.out_pipes.is_empty() {
+            self.play_readers();
         }
         if let Some((ci, at)) = self.kill_cmd_at {
             if self.step >= at {
@@ -1555,6 +1613,9 @@ impl Sim {
     }
 
     pub fn shutdown(&mut self) {
+        for (fd, _, _) in self.out_pipes.drain(..) {
+            unsafe { libc::close(fd) };
+        }
         let _ = self.kill_all();
         self.reap_orphans();
         for p in self.procs.iter_mut() {
